@@ -35,6 +35,9 @@ use simcore::{catch, fnv1a, main_for, mix, Check, Obs, Tier, Violation, Xo};
 enum Sc {
     /// instrumented child maker; threads == 0: serial_next, else par_next on a real pool
     Maker { n: usize, steps: Vec<Vec<usize>>, draws: usize, threads: usize },
+    /// a set-like population (children may collide, so the population may shrink): every step
+    /// must still make exactly as many children as the population has *at that step*
+    SetPop { n: usize, steps: usize, modulus: u64, threads: usize },
     /// the count-ones example pipeline with a selector that fails at its k-th call
     Pipeline { n: usize, bits: usize, fail_at: Option<usize>, threads: usize, data_seed: u64 },
 }
@@ -128,6 +131,82 @@ fn exec_maker(n: usize, steps: &[Vec<usize>], draws: usize, threads: usize, obs:
     }
     if any_fault || overlapped || n >= 2 {
         obs.nontrivial(mix(digest, (n * 8 + threads) as u64));
+    }
+    v
+}
+
+/// Child maker for set populations: counts its calls, returns `1000 * step + (word % modulus)`.
+struct SetMaker {
+    calls: Arc<AtomicUsize>,
+    step: Arc<AtomicUsize>,
+    modulus: u64,
+    made: Arc<std::sync::Mutex<Vec<u64>>>,
+}
+
+impl Composable for SetMaker {}
+
+impl<'a> ec_core::operator::Operator<&'a std::collections::BTreeSet<u64>> for SetMaker {
+    type Output = u64;
+    type Error = std::convert::Infallible;
+
+    fn apply<R: Rng + ?Sized>(&self, _: &'a std::collections::BTreeSet<u64>, rng: &mut R) -> Result<u64, Self::Error> {
+        self.calls.fetch_add(1, Ordering::SeqCst);
+        std::thread::yield_now();
+        let v = 1000 * (self.step.load(Ordering::SeqCst) as u64 + 1) + rng.next_u64() % self.modulus.max(1);
+        self.made.lock().unwrap().push(v);
+        Ok(v)
+    }
+}
+
+fn exec_set(n: usize, steps: usize, modulus: u64, threads: usize, obs: &mut Obs) -> Vec<Violation> {
+    use std::collections::BTreeSet;
+    let which = if threads == 0 { "set/serial_next" } else { "set/par_next(real rayon)" };
+    let calls = Arc::new(AtomicUsize::new(0));
+    let step_no = Arc::new(AtomicUsize::new(0));
+    let made = Arc::new(std::sync::Mutex::new(Vec::new()));
+    let maker = SetMaker { calls: calls.clone(), step: step_no.clone(), modulus, made: made.clone() };
+    let pop: BTreeSet<u64> = (0..n as u64).collect();
+    let mut generation = Generation::new(maker, pop);
+    let mut v = Vec::new();
+    for step in 0..steps {
+        let pre = generation.population().len();
+        calls.store(0, Ordering::SeqCst);
+        made.lock().unwrap().clear();
+        step_no.store(step, Ordering::SeqCst);
+        let r = catch(|| {
+            if threads == 0 {
+                generation.serial_next()
+            } else {
+                pool(threads).install(|| generation.par_next())
+            }
+        });
+        if let Err(p) = r {
+            v.push(Violation::new("never-panics", format!("{which}:panic"), format!("step {step}: panicked: {}", p.message)));
+            return v;
+        }
+        let c = calls.load(Ordering::SeqCst);
+        obs.count("steps", c as u64);
+        if c != pre {
+            v.push(Violation::new(
+                "as-many-children-as-individuals",
+                format!("{which}:maker-calls-differ-from-population-size"),
+                format!("step {step}: the population has {pre} individuals but the child maker was applied {c} times"),
+            ));
+        }
+        let expected: BTreeSet<u64> = made.lock().unwrap().iter().copied().collect();
+        if *generation.population() != expected {
+            v.push(Violation::new(
+                "population-replaced-by-the-new-children",
+                format!("{which}:new-population-is-not-the-children"),
+                format!("step {step}: new population {:?} is not the set of children made in this step {expected:?}", generation.population()),
+            ));
+        }
+        if generation.population().len() < pre {
+            obs.hit("probe.set-population-shrank-by-colliding-children");
+        }
+    }
+    if n >= 2 {
+        obs.nontrivial(mix(mix(77, n as u64), modulus * 16 + (steps * 4 + threads) as u64));
     }
     v
 }
@@ -299,6 +378,9 @@ impl Check for C09 {
             0 | 1 => 0,
             _ => g.urange(1, 4),
         };
+        if g.chance(1, 12) {
+            return Sc::SetPop { n: g.urange(0, 9), steps: g.urange(1, 4), modulus: *g.pick(&[1u64, 2, 3, 1000]), threads };
+        }
         if g.chance(1, 5) {
             let n = g.urange(0, 8);
             return Sc::Pipeline {
@@ -353,7 +435,7 @@ impl Check for C09 {
 
     fn execute(&self, sc: &Sc, obs: &mut Obs) -> Vec<Violation> {
         let threads = match sc {
-            Sc::Maker { threads, .. } | Sc::Pipeline { threads, .. } => *threads,
+            Sc::Maker { threads, .. } | Sc::Pipeline { threads, .. } | Sc::SetPop { threads, .. } => *threads,
         };
         if obs.audit && threads > 0 {
             // real OS threads: only the (schedule-independent) verdict takes part in the determinism audit
@@ -363,6 +445,7 @@ impl Check for C09 {
         match sc {
             Sc::Maker { n, steps, draws, threads } => exec_maker(*n, steps, *draws, *threads, obs),
             Sc::Pipeline { n, bits, fail_at, threads, data_seed } => exec_pipeline(*n, *bits, *fail_at, *threads, *data_seed, obs),
+            Sc::SetPop { n, steps, modulus, threads } => exec_set(*n, *steps, *modulus, *threads, obs),
         }
     }
 
@@ -394,6 +477,17 @@ impl Check for C09 {
                 }
                 if *draws > 1 {
                     out.push(Sc::Maker { n: *n, steps: steps.clone(), draws: 1, threads: *threads });
+                }
+            }
+            Sc::SetPop { n, steps, modulus, threads } => {
+                if *n > 0 {
+                    out.push(Sc::SetPop { n: n - 1, steps: *steps, modulus: *modulus, threads: *threads });
+                }
+                if *steps > 1 {
+                    out.push(Sc::SetPop { n: *n, steps: steps - 1, modulus: *modulus, threads: *threads });
+                }
+                if *threads > 0 {
+                    out.push(Sc::SetPop { n: *n, steps: *steps, modulus: *modulus, threads: 0 });
                 }
             }
             Sc::Pipeline { n, bits, fail_at, threads, data_seed } => {
